@@ -18,6 +18,7 @@ func (k msgServer) ClosePositions(goCtx context.Context, msg *types.MsgClosePosi
 		return nil, nil
 	}
 
+	verifPositionProcessed(ctx, "perp.close.start", "", 0)
 	// Handle liquidations
 	liqLog := []string{}
 	for _, val := range msg.Liquidate {
@@ -46,6 +47,7 @@ func (k msgServer) ClosePositions(goCtx context.Context, msg *types.MsgClosePosi
 			// Add log about error or not liquidated
 			liqLog = append(liqLog, fmt.Sprintf("Position: Address:%s Id:%d cannot be liquidated due to err: %s", position.Address, position.Id, err.Error()))
 		}
+		verifPositionProcessed(ctx, "perp.close", position.Address, position.Id)
 	}
 
 	//Handle StopLoss
@@ -71,6 +73,7 @@ func (k msgServer) ClosePositions(goCtx context.Context, msg *types.MsgClosePosi
 			// Add log about error or not closed
 			closeLog = append(closeLog, fmt.Sprintf("Position: Address:%s Id:%d cannot be liquidated due to err: %s", position.Address, position.Id, err.Error()))
 		}
+		verifPositionProcessed(ctx, "perp.close", position.Address, position.Id)
 	}
 
 	//Handle take profit
@@ -96,6 +99,7 @@ func (k msgServer) ClosePositions(goCtx context.Context, msg *types.MsgClosePosi
 			// Add log about error or not closed
 			takeProfitLog = append(takeProfitLog, fmt.Sprintf("Position: Address:%s Id:%d cannot be liquidated due to err: %s", position.Address, position.Id, err.Error()))
 		}
+		verifPositionProcessed(ctx, "perp.close", position.Address, position.Id)
 	}
 
 	ctx.EventManager().EmitEvent(sdk.NewEvent(types.EventClosePositions,
